@@ -644,6 +644,37 @@ def run(prop, tier, seed):
                         releases=sum(1 for sid_, evs_ in rev.items() for e in evs_ if e["ev"] == "Release"))
             if rdead:
                 print("NOTE: %d race schedule(s) deadlocked (decided under C15); excluded here" % len(rdead))
+            # SEQUENTIAL CLIENTS IN PARALLEL, ONE PER KEY (free-running, no gates: true parallelism).  Each client walks its own key
+            # upwards and asks for every duty twice - the duty and its conflicting twin - so any state that one key's request leaves in
+            # something shared with another key's request (a buffer, a cache, a record under the wrong key) shows as a released twin.
+            nk, steps = 8, 15
+            pconc = concretisations(steps, seed, 0)[0][1]
+            par_scs = []
+            for pi in range(6 if tier == "quick" else 40):
+                pops = []
+                for k in range(nk):
+                    for j in range(steps):
+                        by = ("name", "key")[(k + j + pi) % 2]
+                        if prop == "C02":
+                            pops.append(dict(id="p%dk%dj%da" % (pi, k, j), kind="prop", lane=k + 1, by=by, ents=[dict(k=k, slot=j, root="A")]))
+                            pops.append(dict(id="p%dk%dj%db" % (pi, k, j), kind="prop", lane=k + 1, by=by, ents=[dict(k=k, slot=j, root="B")]))
+                        else:
+                            pops.append(dict(id="p%dk%dj%da" % (pi, k, j), kind="att", lane=k + 1, by=by, ents=[dict(k=k, s=j, t=j + 1, root="A")]))
+                            pops.append(dict(id="p%dk%dj%db" % (pi, k, j), kind="att", lane=k + 1, by=by, ents=[dict(k=k, s=j, t=j + 1, root="B")]))
+                            if j >= 2 and j % 3 == 2:   # surrounded by what the key has signed (j-1 -> j ... ): source below, target below
+                                pops.append(dict(id="p%dk%dj%dc" % (pi, k, j), kind="att", lane=k + 1, by=by, ents=[dict(k=k, s=j - 2, t=j + 2 if j + 2 <= steps else j + 1, root="C")]))
+                par_scs.append(dict(id="%s-parclients-%d" % (prop, pi), world=dict(nkeys=nk), conc=pconc, ops=[dict(id="par", kind="par", gate=False, ops=pops)]))
+            pev, prc, perr = run_driver_parallel(par_scs, wd, tag="parclients", timeout=900) if len(par_scs) > 8 else run_driver(par_scs, wd, tag="parclients", timeout=900)
+            if prc != 0:
+                raise Inconclusive("parallel clients: driver exited %s: %s" % (prc, perr[-300:]))
+            pby = split_scenarios(pev)
+            for sc_ in par_scs:
+                start = len(lines) + 1
+                project_one(sc_["id"], {}, [], pby[sc_["id"]], lines)
+                index.append((start, len(lines), sc_["id"]))
+                nreq += sum(1 for e in pby[sc_["id"]] if e["ev"] == "Respond")
+            nsc += len(par_scs)
+            race["parallel_clients"] = dict(scenarios=len(par_scs), keys=nk, requests=sum(1 for e in pev if e["ev"] == "Respond"), releases=sum(1 for e in pev if e["ev"] == "Release"))
         ok, violated, pos, r = validate(lines, p["trace_inv"], maxi, wd)
         info["states"] += r.distinct
         info["transitions"] += r.generated
@@ -658,7 +689,7 @@ def run(prop, tier, seed):
                 for s in b.scenarios:
                     if s["id"] == sid:
                         sc, smeta, sfloors = s, b.meta[sid], b.expect[sid]["floors"]
-            for s in race_scs + fault_scs + dup_scs + mix_scs:
+            for s in race_scs + fault_scs + dup_scs + mix_scs + (par_scs if prop in ('C01', 'C02') else []):
                 if s["id"] == sid:
                     sc, smeta, sfloors = s, {}, []
             if binary and sid in remote_lookup:
